@@ -364,7 +364,7 @@ def conv_tracks(rec):
         o = {"exc": r[1]}
     else:
         valid, errors = r[1]
-        o = {"valid": bool(valid), "named": named_ids(list(errors), word)}
+        o = {"valid": bool(valid), "named": named_ids(list(errors), word, set(c["labels"]))}
         if word == "Tracklet":
             o["msgs"] = parsed_msgs(list(errors))
     # the oracles (and the theorems) assume unique node ids and edges that join listed nodes; C13's model with the cycle test
